@@ -4,7 +4,8 @@ import os
 import re
 
 from lib import mir, facts
-from .rtcommon import configs, rt, discr_switches, variant_target, calls_in, bool_switches_on_call
+from .rtcommon import (configs, rt, discr_switches, variant_target, calls_in, bool_switches_on_call, crate_callee,
+                       callers_of)
 
 CLAIM = dict(
     level="other", engine="mirfacts+synfacts", design="DESIGN.md §5 C21",
@@ -446,7 +447,13 @@ def one(rep, c, cfg):
         rep.saw(f)
         code_arg = arg_of_type(f, lambda t: t == "u32")
         state_arg = arg_of_type(f, lambda t: "subtask::InProgress<" in t and not t.startswith("&"))
-        flag_b = f.call_blocks(FLAG)
+        direct_flag_b = f.call_blocks(FLAG)
+        # inline view: a call of a private `if !self.started { self.flag_started(..) }` helper is one flag_started
+        # call when started=false and none when started=true
+        helpers = [h for h in guarded_flag_helpers(c, flg) if sole_private_helper_of(c, h, [f])]
+        helper_calls = [k for h in helpers for k in f.calls(h.npath)]
+        helper_b = [k.bb for k in helper_calls]
+        flag_b = direct_flag_b + helper_b
         lists_b = f.call_blocks(LISTS)
         own_b = f.call_blocks(OWN)
         lift_b = f.call_blocks(LIFT)
@@ -479,7 +486,7 @@ def one(rep, c, cfg):
                 if not p.returns:
                     continue
                 exactly(rep, "R21.1", f"{who}: flag_started (frees the lists of the lowered params) x{nflag} {tag}",
-                        p.minmax(flag_b), nflag, f, "flag_started calls")
+                        p.minmax(direct_flag_b if started else flag_b), nflag, f, "flag_started calls")
                 exactly(rep, "R21.1", f"{who}: direct params_dealloc_lists x0 {tag}", p.minmax(lists_b), 0, f,
                         "direct params_dealloc_lists calls")
                 exactly(rep, "R21.1", f"{who}: params_dealloc_lists_and_own (guest releases owned params) x{nown} {tag}",
@@ -519,7 +526,7 @@ def one(rep, c, cfg):
             o = f.origin(k.args[1])
             ok = _is_call(o, "InProgress::ptr_results", ()) and _is_arg(f.origin(o["call"].args[0]), state_arg)
             rep.ob("R21.1", f"in_progress_update: results_lift reads at state.ptr_results() {tag}", ok, "", f.loc(k.bb))
-        for k in f.calls(FLAG):
+        for k in f.calls(FLAG) + helper_calls:
             rep.ob("R21.1", f"in_progress_update: flag_started is applied to the state passed in {tag}",
                    _is_arg(f.origin(k.args[0]), state_arg), "", f.loc(k.bb))
     rep.guard("R21.1", f"in_progress_update {tag}", r1)
@@ -567,6 +574,16 @@ def one(rep, c, cfg):
             SHIM_CANCEL: ("R21.4", {"SubtaskOps::in_progress_cancel"}, 1),
         }
         counts = {k: 0 for k in allowed_calls}
+        for h in guarded_flag_helpers(c, flg):      # `if !self.started { self.flag_started(..) }` helpers of in_progress_update
+            if sole_private_helper_of(c, h, [upd]):
+                allowed_calls[FLAG][1].add(fn_short(h))
+                counts[FLAG] += len(upd.calls(h.npath)) - 1
+        unpackers = set()
+        for k in sta.calls():
+            h = crate_callee(c, k)
+            if h is not None and in_file(h, SUBTASK_RS) and h.d.get("trait") is None and sole_private_helper_of(c, h, [sta]):
+                unpackers.add(h.path)
+                unpackers |= {x.path for x in c.closures_of(h)}
         n_started = n_inprog = n_handle = 0
         sta_closures = {g.path for g in c.closures_of(sta)}
         for f in c.fns.values():
@@ -594,7 +611,7 @@ def one(rep, c, cfg):
                 if rv["adt"].endswith("subtask::SubtaskHandle"):
                     n_handle += 1
                     rep.ob("R21.4", f"SubtaskHandle is only constructed inside SubtaskOps::start: site in {me} {tag}",
-                           f is sta or f.path in sta_closures, f"constructed in {f.npath}", f.loc(b))
+                           f is sta or f.path in sta_closures or f.path in unpackers, f"constructed in {f.npath}", f.loc(b))
         for pat, (rule, allowed, minimum) in allowed_calls.items():
             rep.floor(rule, f"call sites of {pat} in the crate {tag}", counts[pat], minimum)
         rep.floor("R21.2", f"stores to InProgress.started in the crate {tag}", n_started, 1)
@@ -640,10 +657,14 @@ def one(rep, c, cfg):
                 rep.ob("R21.3", f"start: returns a (code, InProgress) pair built in place {tag}", False, f"{rv.get('k')}", f.loc(b))
                 continue
             code = f.origin(rv["ops"][0])
-            ok = code.get("kind") == "bin" and code["op"] == "BitAnd" and any(
-                x.get("kind") == "call" and x["call"].bb == imp.bb and y.get("kind") == "const" and y.get("v") == 0xf
-                for x, y in ((code["a"], code["b"]), (code["b"], code["a"])))
-            rep.ob("R21.3", f"start: status = packed & 0xf {tag}", ok, f"{code.get('kind')} {code.get('op')}", f.loc(b))
+            is_imp = lambda x: x.get("kind") == "call" and x["call"].bb == imp.bb and not _fields(x.get("proj"))
+            is_a1 = lambda x: _is_arg(x, 1)
+            hp = unpack_helper(c, f, code, imp)
+            if hp is not None:          # decoded by a helper applied to the packed value: evaluate the helper's result
+                ok, det = helper_component(c, hp[0], hp[2], lambda g, o: (code_from_packed(g, o, is_a1), "status is not `packed & 0xf`"))
+            else:
+                ok, det = code_from_packed(f, code, is_imp), f"{code.get('kind')} {code.get('op')}"
+            rep.ob("R21.3", f"start: status = packed & 0xf {tag}", ok, det, f.loc(b))
             st = _agg_of(f, f.origin(rv["ops"][1]))
             if st is None or not st[0].endswith("subtask::InProgress"):
                 rep.ob("R21.3", f"start: second component is an InProgress built in start {tag}", False, "", f.loc(b))
@@ -657,7 +678,13 @@ def one(rep, c, cfg):
             rep.ob("R21.3", f"start: InProgress.params_lower is the value passed to the import {tag}",
                    o.get("kind") == "call" and o["call"].bb == low.bb and not _fields(o.get("proj")), f"{o.get('kind')}", f.loc(b))
             o = vals.get("subtask", {})
-            ok, det = handle_from_packed(c, f, o, imp)
+            hp = unpack_helper(c, f, o, imp)
+            if hp is not None:
+                ok, det = helper_component(c, hp[0], hp[2], lambda g, x: handle_from_packed(c, g, x, is_a1))
+                if ok and not sole_private_helper_of(c, hp[0], [f]):
+                    ok, det = False, f"{fn_short(hp[0])} is also called from elsewhere"
+            else:
+                ok, det = handle_from_packed(c, f, o, is_imp)
             rep.ob("R21.3", f"start: InProgress.subtask = NonZero(packed >> 4) wrapped in SubtaskHandle {tag}", ok, det, f.loc(b))
         rep.ob("R21.3", f"start: the buffer is not dropped or forgotten inside start {tag}",
                not state_drops(f, r"rt::Cleanup\b") and not f.calls(LEAKERS), "", f.loc())
@@ -680,8 +707,24 @@ def one(rep, c, cfg):
         o = g.place_origin({"l": 0})
         ok = o.get("kind") == "call" and o["call"].matches(PTR_ADD) and \
             _is_call(g.origin(o["call"].args[1]), "Subtask::results_offset", ())
-        fields = chain_to_arg(g, g.origin(o["call"].args[0]), 1, ["Option::unwrap_or", "Option::map", "Option::as_ref",
-                                                                  "Option::unwrap", "Option::expect", "NonNull::as_ptr"]) if ok else None
+        thr = ["Option::unwrap_or", "Option::map", "Option::as_ref", "Option::unwrap", "Option::expect", "NonNull::as_ptr"]
+        fields = None
+        if ok:
+            base = g.origin(o["call"].args[0])
+            ds = def_origins(g, base)
+            if len(ds) == 1:
+                fields = chain_to_arg(g, ds[0], 1, thr)
+            else:
+                # `match &self.params_and_results { Some(c) => c.ptr.as_ptr(), None => null_mut() }` into a local
+                real = [(d, chain_to_arg(g, d, 1, thr)) for d in ds if not _is_call(d, "ptr::null_mut")]
+                nulls = [d for d in ds if _is_call(d, "ptr::null_mut")]
+                under_none = set()
+                for sb, m, so in discr_switches(g, ty_sub="Option<"):
+                    if _is_arg(so.get("of", {}), 1, (".params_and_results",)) and variant_target(m, "None") is not None \
+                            and variant_target(m, "None") != variant_target(m, "Some"):
+                        under_none |= g.edge_region(sb, variant_target(m, "None"))
+                if len(real) == 1 and real[0][1] is not None and all(d["bb"] in under_none for d in nulls):
+                    fields = real[0][1]
         rep.ob("R21.3", f"ptr_results: self.params_and_results pointer + results_offset() {tag}",
                ok and fields is not None and ".params_and_results" in fields, f"{fields}", g.loc())
     rep.guard("R21.3", f"start {tag}", r3)
@@ -931,23 +974,100 @@ def one(rep, c, cfg):
     rep.guard("R21.6", f"codes-forwarded {tag}", r6)
 
 
+def guarded_flag_helpers(c, flg):
+    """Inherent methods of InProgress that are exactly `if !self.started { self.flag_started(..) }`: with
+    started=true they return without any effect, with started=false every returning path calls flag_started on
+    self exactly once; they make no other release call and never write `started` themselves."""
+    out = []
+    for g in c.fns.values():
+        if g is flg or g.d.get("trait") is not None or mir.base_type(g.d.get("self_ty") or "") != "InProgress":
+            continue
+        if not in_file(g, SUBTASK_RS) or "{closure" in g.path:
+            continue
+        ks = g.calls(FLAG)
+        if not ks or g.field_stores("started") or c.closures_of(g):
+            continue
+        if any(not (k.matches(FLAG) or k.matches(re.compile(r"^(core::(fmt|panicking)::|std::io::_e?print)"))) for k in g.calls()):
+            continue
+        if not all(_is_arg(g.origin(k.args[0]), 1) and not g.in_cycle(k.bb) for k in ks):
+            continue
+        fb = [k.bb for k in ks]
+        pt = Paths(g, status_resolver(g, -1, None, 1, True, fb))
+        pf = Paths(g, status_resolver(g, -1, None, 1, False, fb))
+        if pt.returns and pt.minmax(fb) == (0, 0) and pf.returns and pf.minmax(fb) == (1, 1):
+            out.append(g)
+    return out
+
+
 def classify_ret_simple(f, stmt):
     a = _agg_of(f, f.stored(stmt))
     return a[1] if a else "?"
 
 
-def handle_from_packed(c, f, o, imp):
-    """o: origin of InProgress.subtask.  Accepts `NonZero::new(packed >> 4).map(|h| SubtaskHandle { handle: h })`."""
+def def_origins(f, o):
+    """The origins of every definition of a multi-definition local (origin kind 'place'); [o] otherwise."""
+    if o.get("kind") != "place" or "local" not in o or _fields(o.get("proj")):
+        return [o]
+    out = []
+    for b, i, kind, payload in f.defs.get(o["local"], []):
+        if kind == "call":
+            out.append({"kind": "call", "call": mir.Call(b, payload), "proj": [], "bb": b})
+        elif kind == "assign":
+            if payload.get("k") == "agg":
+                out.append({"kind": "agg", "rv": payload, "bb": b})
+            elif payload.get("k") == "use":
+                x = dict(f.origin(payload["o"]))
+                x["bb"] = b
+                out.append(x)
+            else:
+                out.append({"kind": "unknown", "bb": b})
+        else:
+            out.append({"kind": "unknown", "bb": b})
+    return out
+
+
+def _shr4(f, nz, is_packed):
+    if not _is_call(nz, "NonZero::new"):
+        return False
+    sh = f.origin(nz["call"].args[0])
+    return sh.get("kind") == "bin" and sh["op"] == "Shr" and is_packed(sh["a"]) and \
+        sh["b"].get("kind") == "const" and sh["b"].get("v") == 4
+
+
+def code_from_packed(f, o, is_packed):
+    return o.get("kind") == "bin" and o["op"] == "BitAnd" and any(
+        is_packed(x) and y.get("kind") == "const" and y.get("v") == 0xf for x, y in ((o["a"], o["b"]), (o["b"], o["a"])))
+
+
+def handle_from_packed(c, f, o, is_packed):
+    """o: origin of the Option<SubtaskHandle>.  Accepts `NonZero::new(packed >> 4).map(|h| SubtaskHandle { handle: h })`
+    and the equivalent `match NonZero::new(packed >> 4) { Some(h) => Some(SubtaskHandle { handle: h }), None => None }`."""
+    if o.get("kind") == "place":
+        ds = def_origins(f, o)
+        some = [d for d in ds if (_agg_of(f, d) or (None, None))[1] == "Some"]
+        none = [d for d in ds if (_agg_of(f, d) or (None, None))[1] == "None"]
+        if len(ds) != 2 or len(some) != 1 or len(none) != 1:
+            return False, f"not Option::map and not a Some/None match ({len(ds)} definitions)"
+        h = _agg_of(f, _agg_of(f, some[0])[2][0])
+        if h is None or not h[0].endswith("subtask::SubtaskHandle"):
+            return False, "the Some arm does not wrap a SubtaskHandle"
+        nz = h[2][0]
+        if not (_is_call(nz, "NonZero::new", ("as Some", ".0")) and _shr4(f, nz, is_packed)):
+            return False, "the handle is not the payload of NonZero::new(packed >> 4)"
+        for sb, m, so in discr_switches(f, ty_sub="Option<"):
+            of = so.get("of", {})
+            if of.get("kind") == "call" and of["call"].bb == nz["call"].bb and not _fields(of.get("proj")):
+                st, nt = variant_target(m, "Some"), variant_target(m, "None")
+                if st is not None and nt is not None and st != nt and some[0]["bb"] in f.edge_region(sb, st) and \
+                        none[0]["bb"] in f.edge_region(sb, nt):
+                    return True, ""
+        return False, "the Some / None definitions are not under the matching arms of NonZero::new(..)"
     if not _is_call(o, "Option::map", ()):
         return False, f"not produced by Option::map ({o.get('kind')})"
     k = o["call"]
     nz = f.origin(k.args[0])
-    if not _is_call(nz, "NonZero::new", ()):
-        return False, "the mapped option is not NonZero::new(..)"
-    sh = f.origin(nz["call"].args[0])
-    if not (sh.get("kind") == "bin" and sh["op"] == "Shr" and sh["a"].get("kind") == "call" and sh["a"]["call"].bb == imp.bb
-            and not _fields(sh["a"].get("proj")) and sh["b"].get("kind") == "const" and sh["b"].get("v") == 4):
-        return False, "the handle is not `packed >> 4`"
+    if not (_is_call(nz, "NonZero::new", ()) and _shr4(f, nz, is_packed)):
+        return False, "the mapped option is not NonZero::new(packed >> 4)"
     cl = f.origin(k.args[1])
     name = cl.get("rv", {}).get("closure") if cl.get("kind") == "agg" else None
     g = c.fns.get(name) if name else None
@@ -960,3 +1080,39 @@ def handle_from_packed(c, f, o, imp):
     if not (r.get("kind") == "agg" and r["rv"].get("adt", "").endswith("subtask::SubtaskHandle")):
         return False, "the closure does not return the SubtaskHandle"
     return True, ""
+
+
+def unpack_helper(c, f, o, imp):
+    """If origin o (in f) is a component of the tuple returned by a same-crate helper applied to the import's
+    packed result, return (helper, call, component index)."""
+    if o.get("kind") != "call" or _fields(o.get("proj")) not in ([".0"], [".1"]):
+        return None
+    k = o["call"]
+    g = crate_callee(c, k)
+    if g is None or len(k.args) != 1:
+        return None
+    a = f.origin(k.args[0])
+    if not (a.get("kind") == "call" and a["call"].bb == imp.bb and not _fields(a.get("proj"))):
+        return None
+    return g, k, int(_fields(o["proj"])[0][1:])
+
+
+def helper_component(c, g, idx, check):
+    """check(g, origin) on component idx of every tuple the helper g returns."""
+    sites = ret_sites(g, g.live)
+    if not sites:
+        return False, "the helper's return value is not a tuple built in place"
+    for b, s in sites:
+        rv = s["rv"]
+        if rv.get("k") != "agg" or not rv.get("tuple") or len(rv["ops"]) != 2:
+            return False, "the helper's return value is not a tuple built in place"
+        ok, det = check(g, g.origin(rv["ops"][idx]))
+        if not ok:
+            return False, f"in {fn_short(g)}: {det}"
+    return True, ""
+
+
+def sole_private_helper_of(c, g, callers):
+    """g is only ever called (directly) from `callers` and its address is never taken."""
+    cs, taken = callers_of(c, g)
+    return bool(cs) and not taken and all(h in callers for h in cs)
